@@ -86,9 +86,10 @@ func classify(c Case) (bool, []string) {
 }
 
 func check(c Case) *vk.Failure {
-	words := c.words()
+	orig := c.words()
+	words := vk.Words(orig).Clone() // what the code under test sees
 	nw := len(words)
-	pos := model.Ones(words)
+	pos := model.Ones(orig)
 	n := len(pos)
 	end := int32(64 * nw)
 
@@ -119,7 +120,7 @@ func check(c Case) *vk.Failure {
 			return vk.Failf("rank-index-entry", "IndexSelect32R64 rank index [%d] = %d, want %d", k, ridx[k], cnt)
 		}
 		if k < nw {
-			cnt += int32(model.WordCount(words[k]))
+			cnt += int32(model.WordCount(orig[k]))
 		}
 	}
 	ref := bitmap.IndexRank64(words, true)
